@@ -177,6 +177,15 @@ impl Searcher {
         // Mark that we've seen this state - this will help us avoid draws by repetition in winning states
         state_history.increment(game_state_hash);
 
+        // Checkmate or stalemate at the root: there is no move to search for or to report
+        if MoveGenerator::compute_legal_moves(&game_state).is_empty() {
+            return SearchArtifact {
+                hasher,
+                transpositions,
+                state_history,
+            };
+        }
+
         for depth in 0..max_depth {
             // Don't bother doing multiple threads if we're only searching a few moves
             // as the OS overhead will likely outweigh the benefits of parallelism
